@@ -60,28 +60,30 @@ theorem p2p_authorised (cfg : Cfg) (h : List Input) (a : Addr) (data : Bytes) (f
   have hinv : Storage.Inv s := hs ▸ p2p_storage_inv cfg h
   have hreg : reg s a = registeredIn h a := hs ▸ p2p_registered_iff cfg h a
   rw [← hreg]
-  simp only [P2p.step] at ho
-  -- a request from an unregistered address only produces the reject, which is not restricted
-  by_cases hr : reg s a = true
-  swap
-  · exfalso
-    have hr' : reg s a = false := by simpa using hr
-    obtain ⟨e1, e2, e3⟩ := request_unregistered cfg s a data hr'
+  -- the registration answer is not a restricted output
+  have hregans : dispatch data = .registration → False := by
+    intro hd
+    simp only [P2p.step, hd] at ho
+    obtain ⟨hok, hbad⟩ := handleRegistration_spec hinv a data f hd
+    by_cases hb : octet data 4 + 1 < 256
+    · obtain ⟨r0, _, houts, _⟩ := hok hb
+      simp only [houts, List.mem_singleton] at ho
+      subst ho
+      simp [restricted] at hk
+    · simp only [hbad hb, List.not_mem_nil] at ho
+  cases hr : reg s a with
+  | false =>
+    -- a request from an unregistered address only produces the reject, which is not restricted
+    exfalso
+    obtain ⟨e1, e2, e3⟩ := request_unregistered cfg s a data hr
     cases hd : dispatch data with
-    | registration =>
-      rw [hd] at ho
-      obtain ⟨hok, hbad⟩ := handleRegistration_spec hinv a data f hd
-      by_cases hb : octet data 4 + 1 < 256
-      · obtain ⟨r0, _, houts, _⟩ := hok hb
-        simp only [houts, List.mem_singleton] at ho
-        subst ho
-        simp [restricted] at hk
-      · simp only [hbad hb, List.not_mem_nil] at ho
-    | rdacRequest => rw [hd] at ho; simp only [e1, List.mem_singleton] at ho; subst ho; simp [restricted] at hk
-    | dmrRequest => rw [hd] at ho; simp only [e2, List.mem_singleton] at ho; subst ho; simp [restricted] at hk
-    | ping => rw [hd] at ho; simp only [e3, List.mem_singleton] at ho; subst ho; simp [restricted] at hk
-    | nothing => rw [hd] at ho; simp at ho
-  · refine ⟨hr, ?_⟩
+    | registration => exact hregans hd
+    | rdacRequest => simp only [P2p.step, hd, e1, List.mem_singleton] at ho; subst ho; simp [restricted] at hk
+    | dmrRequest => simp only [P2p.step, hd, e2, List.mem_singleton] at ho; subst ho; simp [restricted] at hk
+    | ping => simp only [P2p.step, hd, e3, List.mem_singleton] at ho; subst ho; simp [restricted] at hk
+    | nothing => simp [P2p.step, hd] at ho
+  | true =>
+    refine ⟨rfl, ?_⟩
     have hsome : ∃ r, registeredRec s a = some r := by
       cases hrr : registeredRec s a with
       | none => rw [(registeredRec_none_iff s a).mp hrr] at hr; cases hr
@@ -90,34 +92,26 @@ theorem p2p_authorised (cfg : Cfg) (h : List Input) (a : Addr) (data : Bytes) (f
     obtain ⟨hrec, _⟩ := registeredRec_some s a r hrr
     refine ⟨r, hrec, ?_⟩
     cases hd : dispatch data with
-    | registration =>
-      rw [hd] at ho
-      obtain ⟨hok, hbad⟩ := handleRegistration_spec hinv a data f hd
-      by_cases hb : octet data 4 + 1 < 256
-      · obtain ⟨r0, _, houts, _⟩ := hok hb
-        simp only [houts, List.mem_singleton] at ho
-        subst ho
-        simp [restricted] at hk
-      · simp only [hbad hb, List.not_mem_nil] at ho
+    | registration => exact absurd (hregans hd) id
     | rdacRequest =>
-      rw [hd] at ho
+      simp only [P2p.step, hd] at ho
       obtain ⟨hkind, hdest⟩ := handleRdacRequest_outs cfg s a data r hrr o ho
       refine ⟨fun _ => hdest, fun hk' => ?_, fun hk' => ?_⟩
       · rcases hkind with h1 | h1 <;> rcases hk' with h2 | h2 <;> rw [h1] at h2 <;> cases h2
       · rcases hkind with h1 | h1 <;> rw [h1] at hk' <;> cases hk'
     | dmrRequest =>
-      rw [hd] at ho
+      simp only [P2p.step, hd] at ho
       obtain ⟨hkind, hdest⟩ := handleDmrRequest_outs cfg s a data r hrr o ho
       refine ⟨fun hk' => ?_, fun _ => hdest, fun hk' => ?_⟩
       · rcases hkind with h1 | h1 <;> rcases hk' with h2 | h2 <;> rw [h1] at h2 <;> cases h2
       · rcases hkind with h1 | h1 <;> rw [h1] at hk' <;> cases hk'
     | ping =>
-      rw [hd] at ho
+      simp only [P2p.step, hd] at ho
       obtain ⟨hkind, hdest⟩ := handlePing_outs s a data r hrr o ho
       refine ⟨fun hk' => ?_, fun hk' => ?_, fun _ => hdest⟩
       · rcases hk' with h2 | h2 <;> rw [hkind] at h2 <;> cases h2
       · rcases hk' with h2 | h2 <;> rw [hkind] at h2 <;> cases h2
-    | nothing => rw [hd] at ho; simp at ho
+    | nothing => simp [P2p.step, hd] at ho
 
 /-- **p2p_reject_unregistered.** A DMR start-up, RDAC start-up or ping datagram from an address with no
 completed registration in the history is answered by exactly the single octet `0x00` to the
@@ -182,10 +176,9 @@ exists and the answer was sent, the flag is not set — see `p2p_registration`) 
 theorem p2p_error_state_unchanged (cfg : Cfg) (h : List Input) (a : Addr) (data : Bytes) (f : Bool) (e : P2p.Err)
     (he : (P2p.step cfg (P2p.run cfg h).1 (.datagram a data f)).2.2 = .err e) (hne : e ≠ .snmpError) :
     (P2p.step cfg (P2p.run cfg h).1 (.datagram a data f)).1 = (P2p.run cfg h).1 := by
-  simp only [P2p.step] at he ⊢
   cases hd : dispatch data with
   | registration =>
-    rw [hd] at he ⊢
+    simp only [P2p.step, hd] at he ⊢
     obtain ⟨hok, hbad⟩ := handleRegistration_spec (p2p_storage_inv cfg h) a data f hd
     by_cases hb : octet data 4 + 1 < 256
     · obtain ⟨r0, _, _, _, hT, hF⟩ := hok hb
@@ -193,10 +186,41 @@ theorem p2p_error_state_unchanged (cfg : Cfg) (h : List Input) (a : Addr) (data 
       | true => rw [(hT rfl).1] at he; cases he; exact absurd rfl hne
       | false => rw [(hF rfl).1] at he; cases he
     · rw [hbad hb]
-  | rdacRequest => simp only [handleRdacRequest_state]
-  | dmrRequest => simp only [handleDmrRequest_state]
-  | ping => simp only [handlePing_state]
-  | nothing => rfl
+  | rdacRequest => simp only [P2p.step, hd, handleRdacRequest_state]
+  | dmrRequest => simp only [P2p.step, hd, handleDmrRequest_state]
+  | ping => simp only [P2p.step, hd, handlePing_state]
+  | nothing => simp only [P2p.step, hd]
+
+/-- with 16-bit ports (every UDP source port, and the configured RDAC port) the redirect packets can
+always be built: `OverflowError` is unreachable -/
+theorem p2p_no_overflow (cfg : Cfg) (h : List Input) (a : Addr) (data : Bytes) (f : Bool)
+    (hc : cfg.rdacPort < 65536) (ha : a.port < 65536) :
+    (P2p.step cfg (P2p.run cfg h).1 (.datagram a data f)).2.2 ≠ .err .overflowError := by
+  cases hd : dispatch data with
+  | registration =>
+    simp only [P2p.step, hd]
+    obtain ⟨hok, hbad⟩ := handleRegistration_spec (p2p_storage_inv cfg h) a data f hd
+    by_cases hb : octet data 4 + 1 < 256
+    · obtain ⟨r0, _, _, _, hT, hF⟩ := hok hb
+      cases f with
+      | true => rw [(hT rfl).1]; intro e; cases e
+      | false => rw [(hF rfl).1]; intro e; cases e
+    · rw [hbad hb]; intro e; cases e
+  | rdacRequest => simp only [P2p.step, hd]; exact handleRdacRequest_no_overflow cfg _ a data hc
+  | dmrRequest => simp only [P2p.step, hd]; exact handleDmrRequest_no_overflow cfg (p2p_storage_inv cfg h) a data ha
+  | ping =>
+    simp only [P2p.step, hd]
+    unfold handlePing
+    split
+    · intro e; cases e
+    · split <;> (intro e; cases e)
+  | nothing => simp only [P2p.step, hd]; intro e; cases e
+
+/-- the packet types the dispatch knows are the three constants of the class -/
+theorem p2p_known_types :
+    Gen.Proto.p2pKnownTypes = [Gen.Proto.p2pTypeDmrStartup, Gen.Proto.p2pTypeRdacStartup, Gen.Proto.p2pTypeRegistration] ∧
+    Gen.Proto.p2pCommandPrefix.length = 3 ∧ Gen.Proto.p2pPingPrefix.length = 5 ∧ Gen.Proto.p2pAckPrefix.length = 5 := by
+  decide
 
 /-! ## RDAC handler -/
 
@@ -231,7 +255,6 @@ theorem rdac_expected_only (s : RState) (a : Addr) (data : Bytes) (f : Bool)
       cases hw : (stepN (Storage.step s.store (.matchIncoming a.val true [])).1 (stepOf s.steps a.ip) a data f).2.1 with
       | none => rw [hw] at hch; exact absurd rfl hch
       | some n =>
-        rw [hw]
         rcases stepN_write _ _ _ _ _ _ hw with ⟨h0, hn⟩ | ⟨h0, _, resp, ht, hp⟩
         · exact Or.inr (Or.inl ⟨h0, by simp [hn]⟩)
         · refine Or.inr (Or.inr ⟨h0, h14, hl, resp, by simp [expected, ht], hp, ?_⟩)
@@ -431,7 +454,7 @@ theorem any_callback_iff (l : List ROut) :
 theorem completions_le (ip : List Nat) (s : RState) (h : List RInput) :
     completions ip h (Rdac.runFrom s h).2 ≤ (if stepAt s ip = 14 then 0 else 1) := by
   induction h generalizing s with
-  | nil => simp [completions, Rdac.runFrom]
+  | nil => simp [completions]
   | cons i t ih =>
     simp only [Rdac.runFrom, completions]
     have ih' := ih (Rdac.step s i.address i.data i.snmpFails).1
@@ -441,15 +464,16 @@ theorem completions_le (ip : List Nat) (s : RState) (h : List RInput) :
           (fun o => match o with | .callback _ => true | _ => false) = true
       · obtain ⟨id, hid⟩ := (any_callback_iff _).mp hcb
         obtain ⟨h13, h14', _, _⟩ := rdac_completion_step s i.address i.data i.snmpFails id hid
-        simp only [stepAt] at h13 h14' ih' ⊢
-        rw [h14', if_pos rfl] at ih'
-        rw [if_pos ⟨rfl, hcb⟩, h13]
-        simp only [Nat.reduceEqDiff, if_false]
+        have ih'' : completions i.address.ip t (Rdac.runFrom (Rdac.step s i.address i.data i.snmpFails).1 t).2 ≤ 0 := by
+          simpa [h14'] using ih'
+        have h13' : ¬ stepAt s i.address.ip = 14 := by rw [h13]; decide
+        rw [if_pos ⟨rfl, hcb⟩, if_neg h13']
         omega
       · rw [if_neg (fun hh => hcb hh.2)]
         by_cases h14 : stepAt s i.address.ip = 14
         · have := (rdac_restart s i.address i.data i.snmpFails).2.1 h14
-          rw [this, if_pos rfl] at ih'
+          have ih'' : completions i.address.ip t (Rdac.runFrom (Rdac.step s i.address i.data i.snmpFails).1 t).2 ≤ 0 := by
+            simpa [this] using ih'
           rw [if_pos h14]; omega
         · rw [if_neg h14]
           have : (if stepAt (Rdac.step s i.address i.data i.snmpFails).1 i.address.ip = 14 then 0 else 1) ≤ 1 := by
@@ -457,8 +481,7 @@ theorem completions_le (ip : List Nat) (s : RState) (h : List RInput) :
           omega
     · rw [if_neg (fun hh => hip hh.1)]
       have := step_stepOf_other s i.address i.data i.snmpFails ip hip
-      simp only [stepAt] at ih' ⊢
-      rw [this] at ih'
+      simp only [stepAt, this] at ih' ⊢
       omega
 
 /-- **rdac_completion_once.** Along any history, completion is reported at most once per IP (step 14 is
@@ -528,7 +551,7 @@ theorem rdac_steps_valid (h : List RInput) (ip : List Nat) : validStep (stepAt (
             | none => exact hs i.address.ip
             | some n =>
               rcases stepN_write _ _ _ _ _ _ hw with ⟨_, hn⟩ | ⟨_, _, resp, ht, _⟩
-              · simp [hn, validStep]
+              · subst hn; show validStep 1 = true; decide
               · simpa using table_next_valid _ _ _ ht
       · simp only [stepAt]
         rw [step_stepOf_other _ _ _ _ _ hip]
